@@ -95,6 +95,7 @@ package markdown
 //@   assigns heap[tabular.propertyImpl.properties], new(tabular.valueProperty), mtab(mt).ErrorContainer.errors_, elemscap(mtab(mt).ErrorContainer.errors_), ghost cbErrN, ghost cbErrLog, ghost cbCallN, ghost cbCallSelf, ghost cbCallOwner, ghost stage, ghost fires, ghost stageR, ghost firesR, ghost stageT, ghost stageC, ghost Wn, ghost Wchunk, ghost Wfailed, ghost mdLineN, ghost mdLinePipes, ghost mdPipes, new(int), new(string), new(tabular.Cell), new(align.Alignment)
 //@   call InvokeRenderCallbacks after assume alignOK(mtab(mt))
 //@   requires [writer-ok] !Wfailed
+//@   ensures [exactly-one-render-pass] stageT[mtab(mt)] == old(stageT)[mtab(mt)] + 2 @C13
 //@   ensures [error-list-grows-only-by-callback-errors] cbErrN >= old(cbErrN) && len(mtab(mt).ErrorContainer.errors_) == old(len(mtab(mt).ErrorContainer.errors_)) + (cbErrN - old(cbErrN)) @C14,C11
 //@   ensures [table-still-wellformed] tbl(mt.Table) @C09,C14
 //@   ensures [no-columns-refused] mtab(mt).nColumns < 1 ==> result != nil && Wn == old(Wn) @C08
